@@ -197,6 +197,32 @@ def run(ctx):
             v = peel(v)
             return isinstance(v, tuple) and v[0] == 'bin' and v[1] == 'BitOr' and any(isinstance(peel(x), tuple) and peel(x)[0] == 'entry' and Fn.path_of(peel(x)[1])[-1:] == [('f', fld)] and Fn.root_of(peel(x)[1]) == ('deref', ('param', 1)) for x in (v[2], v[3]))
         rep.check(r5, bool(ws) and all(accum(v) for v in ws), 'anchor-flag:' + fld, 'writes: %s (each must be `true` or `self.%s | ..`)' % ([short(v)[:50] for v in ws], fld), '%s:%d' % (ap.file, ap.line))
+    # the final table gets one entry per (state row, character): no iteration of the fill loops skips the store, and what is stored is goto(row, c)
+    s4 = F.fn(S_ + 'stage4_make_final_table')
+    rep.saw(s4)
+    stores = []
+    for bi, t in s4.calls(r'IndexMut::index_mut$|IndexMut<I>>::index_mut$'):
+        if 'transitions' not in short(s4.argv(bi, 0)):
+            continue
+        ev = s4.call_val(bi)
+        for b2, blk in enumerate(s4.blocks):
+            for i, st in enumerate(blk['stmts']):
+                if st['lhs']['p'] == ['deref'] and not blk['cleanup'] and st['lhs']['l'] == t['dest']['l'] and not t['dest']['p']:
+                    stores.append((bi, b2, peel(s4.rvalue(st['rv'], (b2, i)))))
+    nexts = [bi for bi, t in s4.calls(r'Iterator::next$') if stores and bi in s4.dominators().get(stores[0][0], ())]
+    ok = len(stores) == 1 and len(nexts) == 2
+    det = 'stores into transitions: %d, enclosing loops: %d' % (len(stores), len(nexts))
+    if ok:
+        ib, sb, val = stores[0]
+        inner = max(nexts, key=lambda b: len(s4.dominators()[b]))
+        body = [x for x in s4.succ[s4.blocks[inner]['term']['target']] if ib in s4.reachable(x) and s4.blocks[x]['term']['k'] != 'unreachable' and x in s4.dominators()[ib]]
+        skip = bool(body) and inner in s4.reachable(body[0], removed_blocks=[sb])
+        isgoto = is_call(val, r'^smack::smack::Smack::goto$')
+        rngs4 = [peel(s4.argv(b_, 0), unwraps=False) for b_, t_ in s4.calls(r'IntoIterator>::into_iter$|IntoIterator::into_iter$')]
+        full4 = sorted(short(r_[2][1])[:40] for r_ in rngs4 if isinstance(r_, tuple) and r_[0] == 'agg' and str(r_[1]).endswith('Range::Range') and const_val(r_[2][0]) == 0)
+        ok = bool(body) and not skip and isgoto and len(full4) == 2 and any('m_state_count' in x for x in full4) and any('ALPHABET_SIZE' in x or x == '258' for x in full4)
+        det = 'an iteration can skip the store: %s; stored value is goto(row, c): %s; loop ranges from 0 up to %s' % (skip, isgoto, full4)
+    rep.check(r5, ok, 'final-table-total', det, '%s:%d' % (s4.file, s4.line))
     fw = F.fn(S_ + 'fixup_wildcards')
     rep.saw(fw)
     rngs = [peel(fw.argv(b_, 0), unwraps=False) for b_, t_ in fw.calls(r'IntoIterator>::into_iter$|IntoIterator::into_iter$')]
